@@ -22,6 +22,17 @@
 #include "testkeys/ECDH_RSA/256_ECDH-RSA.h"
 #include "testkeys/ECDH_RSA/256_ECDH-RSA_KEY.h"
 #include "testkeys/ECDH_RSA/1024_ECDH-RSA_CA.h"
+/* the SHA-384-signed variants reuse the array names of the SHA-256-signed ones */
+#define EC384 EC384_S384
+#define EC384CA EC384CA_S384
+#undef EC384_SIZE
+#undef EC384CA_SIZE
+#include "testkeys/EC/384_EC_SHA384.h"
+#include "testkeys/EC/384_EC_CA_SHA384.h"
+#undef EC384
+#undef EC384CA
+#undef EC384_SIZE
+#undef EC384CA_SIZE
 #include "testkeys/PSK/psk.h"
 #include "testkeys/PSK/tls13_psk.h"
 #include "keys.h"
@@ -39,6 +50,7 @@ int vsim_keymat(int kind, struct vsim_keymat *m)
         KM(RSA1024, RSA1024KEY, RSA1024CA),       /* KK_RSA1024 */
         KM(EC521, EC521KEY, EC521CA),             /* KK_EC521 */
     };
+    if (kind == 9) { static const struct vsim_keymat S = KM(EC384_S384, EC384KEY, EC384CA_S384); *m = S; return 1; }   /* KK_EC384_SHA384 */
     if (kind < 1 || kind > 7) { return 0; }
     *m = T[kind];
     return 1;
